@@ -849,7 +849,16 @@ var c06fixed = []struct{ cat, cs string }{
 	{"abort-retry", "s1 dp1 w1 r1 s2 w2 x2 dp2 w2 r2"},
 	{"abort-idle", "s1 dp1 w1 r1 xi s2 w2 dp2 w2 r2 s3 w3 r3"},
 	{"abort-idle", "s1 dp1 s2 dp2 w1 w2 r1 r2 xi s3 w3 w3 dp3 w3 r3"},
-	{"retry-limit", "s1 s2 s3 s4 s5 s6 s7 s8 dp1 dp2 dp3 dp4 dp5 dp6 dp7 dp8 w1 w2 w3 w4 w5 w6 w7 w8 r1 r2 r3 r4 r5 r6 r7 r8 xi s9 w9 w9 w9 w9 w9 w9 w9 w9 s10 w10 dp10 w10 r10"},
+	// 8 stale idle connections: six reuse attempts fail, the 7th attempt (retry == 6) dials although two
+	// stale connections are still in the pool; the next exchange uses those up and then dials
+	{"retry-limit", "s1 s2 s3 s4 s5 s6 s7 s8 dp1 dp2 dp3 dp4 dp5 dp6 dp7 dp8 w1 w2 w3 w4 w5 w6 w7 w8 r1 r2 r3 r4 r5 r6 r7 r8 xi s9 w9 w9 w9 w9 w9 w9 dp9 w9 r9 s10 w10 w10 dp10 w10 r10 s11 w11 r11"},
+	// exactly 7 stale connections, the forced dial fails / is abandoned / meets Close
+	{"retry-limit", "s1 s2 s3 s4 s5 s6 s7 dp1 dp2 dp3 dp4 dp5 dp6 dp7 w1 w2 w3 w4 w5 w6 w7 r1 r2 r3 r4 r5 r6 r7 xi s9 w9 w9 w9 w9 w9 w9 df9 s10 w10 dp10 w10 rs10"},
+	{"retry-limit", "s1 s2 s3 s4 s5 s6 s7 dp1 dp2 dp3 dp4 dp5 dp6 dp7 w1 w2 w3 w4 w5 w6 w7 r1 r2 r3 r4 r5 r6 r7 xi s9 w9 w9 w9 w9 w9 w9 c9 dp9 s10 w10 r10 s11 w11 dp11 w11 r11"},
+	{"retry-limit-close", "s1 s2 s3 s4 s5 s6 s7 dp1 dp2 dp3 dp4 dp5 dp6 dp7 w1 w2 w3 w4 w5 w6 w7 r1 r2 r3 r4 r5 r6 r7 xi s9 w9 w9 w9 w9 w9 C s10"},
+	{"retry-limit-close", "s1 s2 s3 s4 s5 s6 s7 dp1 dp2 dp3 dp4 dp5 dp6 dp7 w1 w2 w3 w4 w5 w6 w7 r1 r2 r3 r4 r5 r6 r7 xi s9 w9 w9 w9 w9 w9 w9 C dp9"},
+	// six stale connections only: the 7th attempt finds the pool empty anyway
+	{"retry-limit", "s1 s2 s3 s4 s5 s6 dp1 dp2 dp3 dp4 dp5 dp6 w1 w2 w3 w4 w5 w6 r1 r2 r3 r4 r5 r6 xi s9 w9 w9 w9 w9 w9 w9 dp9 w9 r9"},
 	{"idle-timeout", "s1 dp1 w1 r1 t s2 dp2 w2 r2"},
 	{"idle-timeout", "s1 dp1 s2 dp2 w1 w2 r1 t r2 s3 w3 r3 s4 w4 r4"},
 	{"idle-timeout", "s1 c1 dp1 t s2 dp2 w2 r2"},
@@ -865,6 +874,7 @@ type c06gen struct {
 	st       map[int]int // 0 unstarted 1 dial 2 write 3 read 4 done
 	gone     map[int]bool
 	isNew    map[int]bool
+	retry    map[int]int
 	idle     int
 	closed   bool
 	next     int
@@ -877,11 +887,13 @@ func (g *c06gen) fail(e int) {
 		g.st[e] = 4
 		return
 	}
-	if g.idle > 0 {
+	g.retry[e]++
+	if g.idle > 0 && g.retry[e] <= 5 {
 		g.idle--
 		g.st[e] = 2
 	} else {
 		g.st[e] = 1
+		g.isNew[e] = true
 	}
 }
 
@@ -1004,7 +1016,7 @@ func (g *c06gen) step() string {
 }
 
 func c06random(r *rand.Rand) (string, string) {
-	g := &c06gen{r: r, st: map[int]int{}, gone: map[int]bool{}, isNew: map[int]bool{}, next: 1}
+	g := &c06gen{r: r, st: map[int]int{}, gone: map[int]bool{}, isNew: map[int]bool{}, retry: map[int]int{}, next: 1}
 	cat := "random"
 	if r.Intn(6) == 0 {
 		g.maxTicks = 1 + r.Intn(2)
@@ -1036,6 +1048,38 @@ func c06random(r *rand.Rand) (string, string) {
 	return strings.Join(ops, " "), cat
 }
 
+// n connections are parked in the pool and made stale; one exchange then burns through them
+func c06staleScript(r *rand.Rand) string {
+	n := 5 + r.Intn(5)
+	var ops []string
+	for _, f := range []string{"s%d", "dp%d", "w%d", "r%d"} {
+		for e := 1; e <= n; e++ {
+			ops = append(ops, fmt.Sprintf(f, e))
+		}
+	}
+	ops = append(ops, "xi")
+	e := n + 1
+	ops = append(ops, fmt.Sprintf("s%d", e))
+	fails := 3 + r.Intn(6)
+	for i := 0; i < fails; i++ {
+		ops = append(ops, fmt.Sprintf("w%d", e))
+	}
+	switch r.Intn(5) {
+	case 0:
+		ops = append(ops, "C", fmt.Sprintf("dp%d", e))
+	case 1:
+		ops = append(ops, fmt.Sprintf("c%d", e), fmt.Sprintf("dp%d", e))
+	case 2:
+		ops = append(ops, fmt.Sprintf("df%d", e))
+	default:
+		ops = append(ops, fmt.Sprintf("dp%d", e), fmt.Sprintf("w%d", e), fmt.Sprintf("r%d", e))
+	}
+	e2 := e + 1
+	ops = append(ops, fmt.Sprintf("s%d", e2), fmt.Sprintf("w%d", e2), fmt.Sprintf("w%d", e2), fmt.Sprintf("dp%d", e2),
+		fmt.Sprintf("w%d", e2), fmt.Sprintf("r%d", e2))
+	return strings.Join(ops, " ")
+}
+
 func c06genf(r *rand.Rand, thorough bool, emit func(c, cat string)) {
 	type cc struct{ cs, cat string }
 	var all []cc
@@ -1052,6 +1096,9 @@ func c06genf(r *rand.Rand, thorough bool, emit func(c, cat string)) {
 	}
 	for i := 0; i < n; i++ {
 		cs, cat := c06random(r)
+		if i%20 == 7 {
+			cs, cat = c06staleScript(r), "random-stale"
+		}
 		if seen[cs] {
 			continue
 		}
